@@ -571,13 +571,27 @@ static ASTNode *load_module_internal(const char *module_path, Environment *env, 
         return NULL;
     }
     
+    /* fopen() also succeeds on a directory (ftell then reports LONG_MAX) and on
+     * devices/pipes (ftell fails with -1): only a regular file can be a module. */
+    struct stat module_st;
+    if (fstat(fileno(file), &module_st) != 0 || !S_ISREG(module_st.st_mode)) {
+        fprintf(stderr, "Error: Module path '%s' is not a regular file\n", module_path);
+        fclose(file);
+        return NULL;
+    }
+    
     fseek(file, 0, SEEK_END);
     long size = ftell(file);
     fseek(file, 0, SEEK_SET);
     
-    char *source = malloc(size + 1);
-    fread(source, 1, size, file);
-    source[size] = '\0';
+    char *source = (size >= 0) ? malloc((size_t)size + 1) : NULL;
+    if (!source) {
+        fprintf(stderr, "Error: Could not read module file '%s'\n", module_path);
+        fclose(file);
+        return NULL;
+    }
+    size_t bytes_read = fread(source, 1, (size_t)size, file);
+    source[bytes_read] = '\0';
     fclose(file);
     
     /* Tokenize */
